@@ -31,6 +31,8 @@ struct Member {
     der: Vec<u8>,
     serial: String,
     expired: bool,
+    /// members with the same key_id share one key (a certificate renewed for its old key)
+    key_id: usize,
 }
 
 fn members() -> &'static Vec<Member> {
@@ -50,7 +52,7 @@ fn members() -> &'static Vec<Member> {
             let cert = params.self_signed(&key).expect("self sign");
             let cert_pem = cert.pem();
             let serial = CertificateInfo::from_pem_bytes(cert_pem.as_bytes()).expect("analyze").serial_number;
-            v.push(Member { cert_pem, key_pem: key.serialize_pem(), der: cert.der().to_vec(), serial, expired });
+            v.push(Member { cert_pem, key_pem: key.serialize_pem(), der: cert.der().to_vec(), serial, expired, key_id: i });
         }
         // members 5 and 6: a leaf signed by a CA of its own, the certificate file is the chain
         // (leaf first, then the CA certificate) the way "fullchain" files are written
@@ -69,7 +71,23 @@ fn members() -> &'static Vec<Member> {
             let leaf = params.signed_by(&key, &issuer).expect("sign leaf");
             let serial = CertificateInfo::from_pem_bytes(leaf.pem().as_bytes()).expect("analyze").serial_number;
             let cert_pem = format!("{}{}", leaf.pem(), ca_cert.pem());
-            v.push(Member { cert_pem, key_pem: key.serialize_pem(), der: leaf.der().to_vec(), serial, expired: false });
+            v.push(Member { cert_pem, key_pem: key.serialize_pem(), der: leaf.der().to_vec(), serial, expired: false, key_id: i });
+        }
+        // member 7: member 0 renewed - the same key and the same serial number (serials derived from the
+        // key, fixed serials of self-signed set-ups), another certificate (names, validity)
+        {
+            let key = rcgen::KeyPair::from_pem(&v[0].key_pem).expect("reload key 0");
+            let mut params = rcgen::CertificateParams::new(vec!["renewed0.test".to_string(), "localhost".to_string()]).expect("params");
+            params.serial_number = Some(rcgen::SerialNumber::from(vec![0x10, 0x22, 0x33, 0x44, 1]));
+            params.not_before = rcgen::date_time_ymd(2024, 6, 1);
+            params.not_after = rcgen::date_time_ymd(2099, 6, 1);
+            let cert = params.self_signed(&key).expect("self sign");
+            let cert_pem = cert.pem();
+            let serial = CertificateInfo::from_pem_bytes(cert_pem.as_bytes()).expect("analyze").serial_number;
+            assert_eq!(serial, v[0].serial, "member 7 must carry member 0's serial number");
+            assert_ne!(cert.der().to_vec(), v[0].der);
+            let key_pem = v[0].key_pem.clone();
+            v.push(Member { cert_pem, key_pem, der: cert.der().to_vec(), serial, expired: false, key_id: 0 });
         }
         v
     })
@@ -222,7 +240,7 @@ fn classify(cert: &FileState, key: &FileState) -> Want {
     let (ci, cc, ce) = side(cert, true);
     let (ki, kc, ke) = side(key, false);
     match (ci, ki) {
-        (Some(a), Some(b)) if a == b && !ms[a].expired => {
+        (Some(a), Some(b)) if ms[a].key_id == ms[b].key_id && !ms[a].expired => {
             if cc && kc {
                 Want::Ok(a)
             } else if (cc || ce) && (kc || ke) {
@@ -256,7 +274,7 @@ fn write_state(path: &std::path::Path, f: &FileState, is_cert: bool) {
 
 fn state_strategy() -> BoxedStrategy<FileState> {
     prop_oneof![
-        6 => (0u8..7).prop_map(FileState::Member),
+        6 => (0u8..8).prop_map(FileState::Member),
         3 => (prop_oneof![0u8..4, 5u8..7], any::<u16>()).prop_map(|(i, n)| FileState::Trunc(i, n)),
         1 => (prop_oneof![0u8..4, 5u8..7], 64000u16..=65535).prop_map(|(i, n)| FileState::Trunc(i, n)),
         1 => Just(FileState::Empty),
@@ -309,6 +327,8 @@ impl Family for ReloadFam {
                 }
             }
         }
+        // a renewal that keeps key and serial number: only the certificate file changes, there and back
+        v.push(ReloadCase { initial: 0, ops: vec![ROp::WriteCert(FileState::Member(7)), ROp::Reload, ROp::Handshake, ROp::Handshake, ROp::WriteCert(FileState::Member(0)), ROp::Reload, ROp::Handshake, ROp::PingOld] });
         // reload landing between the two writes of an update, both orders
         for (a, b) in [(0u8, 1u8), (1, 2), (2, 3), (3, 0)] {
             v.push(ReloadCase { initial: a, ops: vec![ROp::WriteCert(FileState::Member(b)), ROp::Reload, ROp::Handshake, ROp::WriteKey(FileState::Member(b)), ROp::Reload, ROp::Handshake, ROp::PingOld] });
